@@ -37,9 +37,10 @@ CLAIMED = {
 CLAIMED["C19"] = ("translation_validation", "the SQLite-backed v2 tree is run on normal-form histories (at most one write or removal per key per version, empty versions, trees shrinking to empty) over the option grid (checkpoint interval, height filter, eviction depth, sharding) and every commit hash, lookup, existence test, size, height and forward / reverse / inclusive iteration is compared with the Lean model of v1 (itself proved equal to the versioned map, C01, and hashing canonically, C02); no v2-specific theorem yet (v2_eq_v1 is a goal)", "5.C19", "v2 implementation vs the proved v1 model on generated histories")
 CLAIMED["C20"] = ("translation_validation", "close / reopen / LoadVersion of every retained version (on, just after and far after a checkpoint), continuing the history after a restart at the latest version, DeleteVersionsTo followed by reopen, SaveSnapshot+LoadSnapshot and Export(pre/post)+WriteSnapshot+LoadSnapshot: hash and contents compared with the model of that version; K22 (continuing from an older version) recorded", "5.C20", "v2 implementation vs the proved v1 model on generated histories")
 
+CLAIMED["C16"] = ("translation_validation", "legacy databases are written by the real legacy library (iavl v0.20.0, the version cmd/legacydump pins) from generated histories with and without legacy-side deletions; the current library opens them and every legacy version's contents and root hash, new commits on top, commits without writes on a legacy root, pruning below/at/above the boundary, rollback into the legacy range and reopenings are compared with the model's predictions; legacy codec round trips proved; K24 (converted-root key clash) recorded", "5.C16", "legacy library as producer + current library vs the Lean model on generated histories")
+
 NA = {
  "C06": "check not built yet (schedule exploration through the verif yield hooks is planned, DESIGN 5.C06)",
- "C16": "check not built yet (legacy database generator + dual-format model pending)",
 }
 
 
@@ -54,6 +55,7 @@ def main():
                   "add_only": True},
         "engines": [
             {"name": "lean-model", "path": "lean", "serves_properties": sorted(CLAIMED), "kind_free_text": "Lean 4 model, theorems (Iavl/Props), compiled driver"},
+            {"name": "legacygen", "path": "harness/legacygen", "serves_properties": ["C16"], "kind_free_text": "Go program linking the legacy library iavl v0.20.0 to write legacy-format databases"},
             {"name": "harness-v2", "path": "harness/v2", "serves_properties": ["C19", "C20"], "kind_free_text": "Go correspondence harness for iavl/v2 (cgo sqlite), build tag verif"},
             {"name": "harness-v1", "path": "harness/v1", "serves_properties": sorted(CLAIMED), "kind_free_text": "Go correspondence harness (modes exec, kv, crash, fault), build tag verif"}],
         "checks": [],
